@@ -51,6 +51,10 @@ func c09Txns() []c09Txn {
 		// the first transaction ever on a file of 0 bytes: nothing to journal (page count 0, initial size 0); recovery = truncate to nothing
 		{"first-transaction-on-empty-file", "", "", `BEGIN; CREATE TABLE first (a, b); CREATE INDEX first_b ON first (b); INSERT INTO first VALUES (1, 'x'), (2, 'y'), (3, 'z'); COMMIT`, true},
 		{"first-transaction-on-empty-file-spill", "", "PRAGMA cache_size=1", `BEGIN; CREATE TABLE first (a, b); WITH RECURSIVE n(i) AS (SELECT 1 UNION ALL SELECT i+1 FROM n WHERE i<150) INSERT INTO first SELECT i, 'xxxxxxxxxxxxxxxxxxxxxxxxxxxxxxxxxxxxxxxxxxxxxxxxxxxxxxxxxxxxxxxxxxxxxxxxxxxxxxxxxxxxxxxxxxxx'||i FROM n; COMMIT`, true},
+		// a writer that never syncs (synchronous=OFF) writes the journal header once, with the record count
+		// 0xFFFFFFFF: "as many records as the file holds"
+		{"small-update-sync-off", "", "PRAGMA synchronous=OFF", `BEGIN; UPDATE t SET v = 'changed' WHERE id IN (3, 17); DELETE FROM w WHERE k = 'b'; COMMIT`, false},
+		{"spill-sync-off", "", "PRAGMA synchronous=OFF; PRAGMA cache_size=1", `BEGIN; UPDATE t SET v = 'u' WHERE id < 30; INSERT INTO w VALUES ('y', 25); COMMIT`, false},
 		// journals of 1..27 bytes after a completed commit (journal_size_limit below the header size)
 		{"size-limit-16", "", "PRAGMA journal_size_limit=16; PRAGMA cache_size=1", `BEGIN; UPDATE t SET v = 'limited' WHERE id < 25; COMMIT`, false},
 		{"size-limit-1", "", "PRAGMA journal_size_limit=1", `UPDATE w SET v = 5 WHERE k = 'c'`, false},
@@ -184,7 +188,7 @@ func c09Record(dir string, cfg c09Config) (b0 []byte, ops []lite.VfsOp, endDB, e
 }
 
 func runC09(r *ev.Run) {
-	r.Rule = "real SQLite write transactions (one-row autocommit update, small update, spilling bulk insert with cache_size=1, file-growing insert, delete with auto-vacuum truncation, schema change, spilled rollback, the first transaction ever on a file of 0 bytes) recorded under a logging VFS, journal modes DELETE/TRUNCATE/PERSIST, page sizes {512 (+1024, 4096 thorough)}, sector sizes {512, 4096}; for the log of N file operations: every prefix 0..N (the writer process dies before operation k; completed system calls persist) and for every write its torn variants (first 512 bytes, first half rounded to 512; for small writes every 4-byte prefix); oracle: real SQLite opens a copy of the pair, performs its own recovery and dumps it; sqlittle on the original either fails or returns exactly that dump; every image is read by a fresh handle and by handles opened before the writer started: one that read everything, one that was only opened, one that only listed the tables, (operation boundaries) one that was refused a read once while another process held EXCLUSIVE, and a fresh handle while another process is in the middle of a read; from the commit point on (journal deleted / truncated / header zeroed) and before the first operation it must succeed. conformance: replaying the whole log reproduces the files the real run left behind, byte for byte. non-trivial = images with a journal on disk"
+	r.Rule = "real SQLite write transactions (one-row autocommit update, small update, spilling bulk insert with cache_size=1, file-growing insert, delete with auto-vacuum truncation, schema change, spilled rollback, the first transaction ever on a file of 0 bytes, a writer with synchronous=OFF whose journal header carries the record count 0xFFFFFFFF) recorded under a logging VFS, journal modes DELETE/TRUNCATE/PERSIST, page sizes {512 (+1024, 4096 thorough)}, sector sizes {512, 4096}; for the log of N file operations: every prefix 0..N (the writer process dies before operation k; completed system calls persist) and for every write its torn variants (first 512 bytes, first half rounded to 512; for small writes every 4-byte prefix); oracle: real SQLite opens a copy of the pair, performs its own recovery and dumps it; sqlittle on the original either fails or returns exactly that dump; every image is read by a fresh handle and by handles opened before the writer started: one that read everything, one that was only opened, one that only listed the tables, (operation boundaries) one that was refused a read once while another process held EXCLUSIVE, and a fresh handle while another process is in the middle of a read; from the commit point on (journal deleted / truncated / header zeroed) and before the first operation it must succeed. conformance: replaying the whole log reproduces the files the real run left behind, byte for byte. non-trivial = images with a journal on disk"
 	dir := ev.TmpDir("c09")
 	defer os.RemoveAll(dir)
 	c09Peers = make(chan *Peer, 8)
@@ -214,6 +218,9 @@ func runC09(r *ev.Run) {
 		for _, t := range txns {
 			for _, m := range modes {
 				if (t.name == "grow" || t.name == "schema-change" || t.name == "rollback" || t.name == "tiny" || t.name == "two-page-db") && m != "DELETE" {
+					continue
+				}
+				if t.name == "small-update-sync-off" && m != "DELETE" || t.name == "spill-sync-off" && m == "TRUNCATE" {
 					continue
 				}
 				if strings.HasPrefix(t.name, "size-limit") && m != "PERSIST" && !(t.name == "size-limit-27-exclusive" && m == "DELETE") {
